@@ -107,7 +107,7 @@ static void save_v_matrices(const vnacal_new_solve_state_t *vnssp,
     for (int idx = 0; idx < vnp->vn_measurement_count; ++idx) {
 	const vnacal_new_msv_matrices_t *vnmmp = &vnssp->vnss_msv_matrices[idx];
 
-	if (vnmmp == NULL) {
+	if (vnmmp->vnsm_v_matrices == NULL) {
 	    continue;
 	}
 	for (int sindex = 0; sindex < vnp->vn_systems; ++sindex) {
@@ -137,7 +137,7 @@ static void restore_v_matrices(vnacal_new_solve_state_t *vnssp,
     for (int idx = 0; idx < vnp->vn_measurement_count; ++idx) {
 	const vnacal_new_msv_matrices_t *vnmmp = &vnssp->vnss_msv_matrices[idx];
 
-	if (vnmmp == NULL) {
+	if (vnmmp->vnsm_v_matrices == NULL) {
 	    continue;
 	}
 	for (int sindex = 0; sindex < vnp->vn_systems; ++sindex) {
